@@ -276,3 +276,9 @@ func (r *Result) Finish(verifDir string, findings []Finding) int {
 		strings.Join(ids, ","), time.Since(r.Start).Seconds())
 	return code
 }
+
+// NewDevCtx makes a context for developer dumps (no rule attached).
+func NewDevCtx(p *Program) *Ctx {
+	var sink []Obligation
+	return &Ctx{Prog: p, Tier: "thorough", rule: &Rule{ID: "dev"}, out: &sink, Funcs: map[string]bool{}}
+}
